@@ -107,7 +107,7 @@ Proof.
                   | None => false
                   end
                then
-                 if (k_dep k =? -1) || (q_maxfw p <? minw) ||
+                 if (k_dep k =? -1) || (q_maxfw p <=? 0) ||
                     match row_of (c_from c) (k_accfp k) with
                     | Some ar => c_dep c - k_dep k - fp_time ar <=? q_maxfw p
                     | None => false
@@ -136,7 +136,7 @@ Proof.
               | Some ar => c_dep c - fp_time ar - minw >=? k_dep k
               | None => false
               end) eqn:E4; [|left; reflexivity].
-    destruct ((k_dep k =? -1) || (q_maxfw p <? minw) ||
+    destruct ((k_dep k =? -1) || (q_maxfw p <=? 0) ||
               match row_of (c_from c) (k_accfp k) with
               | Some ar => c_dep c - k_dep k - fp_time ar <=? q_maxfw p
               | None => false
